@@ -504,6 +504,44 @@ theorem C11_datadog_framing (c : Cfg) (k : Chunk) (h : c.mode = .datadog) :
 
 /-! ### fact obligations (Tie B) -/
 
+/-! translated function (Tie B, semantic form) -/
+
+theorem C11_fact_can_append_found : Facts.gen_can_append_ff_found = true ∧ Facts.gen_can_append_dd_found = true := by decide
+
+/-- `CanAppendData` of both chunk kinds, translated from the source, is the model's `canAppend` for all limits and fill levels -/
+theorem C11_gen_can_append (c : Cfg) (k : Cur) (len : Nat) :
+    canAppend c k len =
+      (if isDD c then Facts.gen_can_append_dd c.maxRecords k.numRecords c.maxBytes k.numBytes len
+       else Facts.gen_can_append_ff c.maxRecords k.numRecords c.maxBytes k.numBytes len) := by
+  unfold canAppend Facts.gen_can_append_dd Facts.gen_can_append_ff
+  cases hd : isDD c
+  · simp only [Bool.false_eq_true, if_false, Nat.add_zero]
+    by_cases h1 : c.maxRecords > 0 ∧ k.numRecords ≥ c.maxRecords
+    · have : (decide ((c.maxRecords : Int) > 0) && decide ((k.numRecords : Int) ≥ (c.maxRecords : Int))) = true := by simp; omega
+      simp only [h1, and_self, if_true, this]
+    · have : (decide ((c.maxRecords : Int) > 0) && decide ((k.numRecords : Int) ≥ (c.maxRecords : Int))) = false := by
+        simp; omega
+      simp only [h1, if_false, this, Bool.false_eq_true]
+      by_cases h2 : c.maxBytes > 0 ∧ k.numBytes + len > c.maxBytes
+      · have : (decide ((c.maxBytes : Int) > 0) && decide ((k.numBytes : Int) + (len : Int) > (c.maxBytes : Int))) = true := by simp; omega
+        simp only [h2, and_self, if_true, this]
+      · have : (decide ((c.maxBytes : Int) > 0) && decide ((k.numBytes : Int) + (len : Int) > (c.maxBytes : Int))) = false := by
+          simp; omega
+        simp only [h2, if_false, this, Bool.false_eq_true]
+  · simp only [if_true]
+    by_cases h1 : c.maxRecords > 0 ∧ k.numRecords ≥ c.maxRecords
+    · have : (decide ((c.maxRecords : Int) > 0) && decide ((k.numRecords : Int) ≥ (c.maxRecords : Int))) = true := by simp; omega
+      simp only [h1, and_self, if_true, this]
+    · have : (decide ((c.maxRecords : Int) > 0) && decide ((k.numRecords : Int) ≥ (c.maxRecords : Int))) = false := by
+        simp; omega
+      simp only [h1, if_false, this, Bool.false_eq_true]
+      by_cases h2 : c.maxBytes > 0 ∧ k.numBytes + len + 1 > c.maxBytes
+      · have : (decide ((c.maxBytes : Int) > 0) && decide ((k.numBytes : Int) + (len : Int) + 1 > (c.maxBytes : Int))) = true := by simp; omega
+        simp only [h2, and_self, if_true, this]
+      · have : (decide ((c.maxBytes : Int) > 0) && decide ((k.numBytes : Int) + (len : Int) + 1 > (c.maxBytes : Int))) = false := by
+          simp; omega
+        simp only [h2, if_false, this, Bool.false_eq_true]
+
 theorem C11_fact_id_format : Facts.pack_id_format = ["%019d-%08d"] := by decide
 theorem C11_fact_id_compare : Facts.pack_id_epoch_compare = ["nextTimestamp > generator.epochNano"] := by decide
 theorem C11_fact_suffixes : Facts.pack_id_suffixes = [".ff", ".dd"] := by decide
